@@ -7,6 +7,7 @@ status, ValueError) must be equal.  Independently (a) a brute-force Python oracl
 checkers knap_check_q / bin_check (proved sound in Coq) judge the IMPLEMENTATION's outputs.
 """
 import json
+import math
 from fractions import Fraction
 
 from harness.core import VERIF, Ctx, cbool, clist, cnat, copt, cq, cz, guarded, pmap
@@ -37,6 +38,14 @@ def is_dyadic(x, bits=12):
 
 def is_intlike(x):
     return frac(x).denominator == 1
+
+
+def values_exact(values):
+    """Sums of these values are computed exactly by the code: Python ints of any size, or floats (dyadic with few bits /
+    integral) whose absolute sum stays below 2^53.  Otherwise the objective is a rounded float sum (1e-9 relative)."""
+    if all(isinstance(v, int) and not isinstance(v, bool) for v in values):
+        return True
+    return all(is_dyadic(v, 30) or is_intlike(v) for v in values) and sum(abs(frac(v)) for v in values) < 2**53
 
 
 # ---------------------------------------------------------------- knapsack generators
@@ -560,10 +569,19 @@ def run_knap_impl(c):
         sol = res.solution
         if any(not isinstance(i, int) or isinstance(i, bool) for i in sol):
             raise ValueError(f"non-int index in {sol!r}")
-        return ([int(i) for i in sol], frac(res.objective), res.status.name)
+        o = res.objective
+        return ([int(i) for i in sol], o if isinstance(o, float) and not math.isfinite(o) else frac(o), res.status.name)
 
-    vals = _as_container(c["values"], c.get("as", "list"))
-    ws = vals if c.get("alias") else _as_container(c["weights"], c.get("as", "list"))
+    if "init" in c:                        # class A2: a first call, then the caller's lists are edited IN PLACE to the final input
+        from harness.props.C16_r3 import edit_in_place
+        ini = c["init"]
+        vals, ws = list(ini["values"]), list(ini["weights"])
+        guarded(solve_knapsack, vals, ws, ini["capacity"], minimize=ini["minimize"], timeout=20)
+        edit_in_place(vals, list(c["values"]))
+        edit_in_place(ws, list(c["weights"]))
+    else:
+        vals = _as_container(c["values"], c.get("as", "list"))
+        ws = vals if c.get("alias") else _as_container(c["weights"], c.get("as", "list"))
     before = (_snap(vals), _snap(ws))
     light = knap_cells(c) <= 60000
     for pre in c.get("pre", []):          # class A: earlier calls on the same objects with other options
@@ -598,12 +616,24 @@ def run_bin_impl(c):
             raise ValueError(f"non-int bin in {res.solution!r}")
         return ([int(b) for b in res.solution], frac(res.objective), res.status.name)
 
-    sizes = _as_container(c["sizes"], c.get("as", "list"))
+    if "init" in c:
+        from harness.props.C16_r3 import edit_in_place
+        ini = c["init"]
+        sizes = list(ini["sizes"])
+        guarded(solve_bin_pack, sizes, ini["capacity"], algorithm=ini["algorithm"], timeout=10)
+        if c.get("call_lower_bound"):
+            from solvor import bin_pack as _bp
+            if hasattr(_bp, "lower_bound"):
+                guarded(_bp.lower_bound, sizes, ini["capacity"], timeout=5)
+        edit_in_place(sizes, list(c["sizes"]))
+    else:
+        sizes = _as_container(c["sizes"], c.get("as", "list"))
     before = _snap(sizes)
     light = len(c["sizes"]) <= 300
     for pre in c.get("pre", []):
         guarded(solve_bin_pack, sizes, c["capacity"], algorithm=pre, timeout=10)
-    r = guarded(solve_bin_pack, sizes, c["capacity"], algorithm=c["algorithm"], timeout=20)
+    algo = "".join(list(c["algorithm"])) if isinstance(c["algorithm"], str) else c["algorithm"]     # equal, not identical, string object
+    r = guarded(solve_bin_pack, sizes, c["capacity"], algorithm=algo, timeout=30)
     if _snap(sizes) != before:
         return ("bad", f"solve_bin_pack modified its input: {before} -> {_snap(sizes)}")
     if r[0] != "ok":
@@ -660,7 +690,7 @@ def oracle_knap(c, out):
     tw = sum(ws[i] for i in sel)
     if tw > cap:
         return ("capacity", f"selection {sel} weighs {tw} > capacity {cap}")
-    vtol = Fraction(0) if all(is_dyadic(v, 30) or is_intlike(v) for v in c["values"]) else EPS * max(1, sum(abs(v) for v in vals))
+    vtol = Fraction(0) if values_exact(c["values"]) else EPS * max(1, sum(abs(v) for v in vals))
     if abs(obj - sum(vals[i] for i in sel)) > vtol:       # exact, except for non-dyadic decimal values (float sum: 1e-9 relative)
         return ("objective", f"objective {obj} != sum of selected values {sum(vals[i] for i in sel)}")
     if status not in ("OPTIMAL", "FEASIBLE"):
@@ -1147,17 +1177,29 @@ def run(ctx: Ctx):
             cases.append(gen_bin_r2(rng, fam, thorough))
     for _ in range(ctx.budget(1, 6)):
         cases += spelling_sweep(rng)
+    # round-3 families: work volume of every loop, in-place edits between calls, float extremes
+    from harness.props import C16_r3 as R3
+    for fam, q, t in R3.R3_KNAP:
+        for _ in range(ctx.budget(q, t)):
+            cases.append(R3.gen_knap_r3(rng, fam, thorough))
+    for fam, q, t in R3.R3_BIN:
+        for _ in range(ctx.budget(q, t)):
+            cases.append(R3.gen_bin_r3(rng, fam, thorough))
     # integer-scaled twins of the non-exact (decimal) packing cases (exact run of the same code)
     twins = {}
     for c in list(cases):
-        if c["kind"] == "bin" and not bin_exact(c) and not bin_should_raise(c) and len(c["sizes"]) > 0:
+        if c["kind"] == "bin" and not c.get("x") and not bin_exact(c) and not bin_should_raise(c) and len(c["sizes"]) > 0:
             t = scaled_bin_case(c)
             t.pop("as", None)
             twins[_key(c)] = len(cases)
             cases.append(t)
 
+    import time as _t
+    _t0 = _t.time()
     outs = pmap(_run_case, cases)
     ctx.evaluations += len(cases)
+    ctx.extra["stage_s"] = {"implementation_runs": round(_t.time() - _t0, 1)}
+    _t0 = _t.time()
 
     # ------------------------------------------------ oracle + term building
     kq_cases, kq_meta, kz_cases, kz_meta, ks_cases, ks_meta = [], [], [], [], [], []
@@ -1167,6 +1209,16 @@ def run(ctx: Ctx):
         kind = c["kind"]
         ctx.count(f"{kind}_class", c["cls"])
         ctx.count(f"{kind}_outcome", out[1][2] if out[0] == "ok" else (out[1] if out[0] == "exc" else out[0]))
+        if c.get("x"):                          # inf / NaN / overflowing floats: own oracle, no model
+            bad = (R3.oracle_knap_x if kind == "knap" else R3.oracle_bin_x)(c, out)
+            ctx.count("x_outcome", f"{kind}:{out[1][2] if out[0] == 'ok' else out[1] if out[0] == 'exc' else out[0]}")
+            if bad:
+                ctx.violation(f"{'solve_knapsack' if kind == 'knap' else 'solve_bin_pack'} on float extremes violates clause '{bad[0]}': {bad[1]}",
+                              {"kind": kind, "case": c, "impl": repr(out), "clause": bad[0]})
+            continue
+        for loop, cnt in (R3.knap_work(c, out) if kind == "knap" else R3.bin_work(c, out)).items():
+            wm = ctx.extra.setdefault("work_max_iterations_per_loop", {})
+            wm[loop] = max(wm.get(loop, 0), cnt)
         if kind == "knap":
             ctx.count("knap_n", len(c["values"]))
             ctx.count("knap_minimize", c["minimize"])
@@ -1192,13 +1244,13 @@ def run(ctx: Ctx):
                 ctx.count("knap_events", ev)
             # Coq spec check on the implementation's output (independent of the model)
             obs = knap_obs_q(out)
-            exact_vals = all(is_dyadic(v, 30) or is_intlike(v) for v in c["values"])      # else the objective is a rounded float sum
+            exact_vals = values_exact(c["values"])      # else the objective is a rounded float sum
             if obs is not None and exact_vals:
                 ks_cases.append(f"({knap_in_q(c)}, {obs})")
                 ks_meta.append((c, out))
             # correspondence with the rational model
             safe = knap_float_safe(c, out)
-            cheap = knap_model_cost(c) <= 450000
+            cheap = knap_model_cost(c) <= 450000 and len(c["values"]) <= 4900        # nat literals (indices) stay below 5000
             ctx.count("knap_float_guard", ("compared" if cheap else "too-large-for-vm_compute") if safe else "skipped")
             if safe and cheap:
                 if obs is None:
@@ -1256,15 +1308,33 @@ def run(ctx: Ctx):
             b_cases.append(f"({bin_in(c)}, {obs})")
             b_meta.append((c, out))
             ctx.traces_validated += 1
+    for loop, cnt in ctx.extra.get("work_max_iterations_per_loop", {}).items():
+        for thr in R3.THRESHOLDS:
+            if cnt > thr:
+                ctx.count("work_thresholds_crossed", f"{loop}>{thr}")
     if ratio_stats:
         for k, opt in ratio_stats:
             ctx.count("bin_k_minus_opt", k - opt)
 
-    f_kq = ctx.coq_check("knap_q", IMPORTS, KNAP_Q_T, KNAP_Q_CHK, kq_cases, shard=120)
-    f_kz = ctx.coq_check("knap_z", IMPORTS, KNAP_Z_T, KNAP_Z_CHK, kz_cases, shard=200)
-    f_ks = ctx.coq_check("knap_spec", IMPORTS, KNAP_Q_T, KNAP_Q_SPEC, ks_cases, shard=300)
-    f_b = ctx.coq_check("bin", IMPORTS, BIN_T, BIN_CHK, b_cases, shard=200)
-    f_bs = ctx.coq_check("bin_spec", IMPORTS, BIN_SPEC_T, BIN_SPEC, bs_cases, shard=300)
+    ctx.extra["stage_s"]["oracles"] = round(_t.time() - _t0, 1)
+    for tag_, fn_ in (("knap_q", lambda: ctx.coq_check("knap_q", IMPORTS, KNAP_Q_T, KNAP_Q_CHK, kq_cases, shard=120)),
+                      ("knap_z", lambda: ctx.coq_check("knap_z", IMPORTS, KNAP_Z_T, KNAP_Z_CHK, kz_cases, shard=200)),
+                      ("knap_spec", lambda: ctx.coq_check("knap_spec", IMPORTS, KNAP_Q_T, KNAP_Q_SPEC, ks_cases, shard=300)),
+                      ("bin", lambda: ctx.coq_check("bin", IMPORTS, BIN_T, BIN_CHK, b_cases, shard=200)),
+                      ("bin_spec", lambda: ctx.coq_check("bin_spec", IMPORTS, BIN_SPEC_T, BIN_SPEC, bs_cases, shard=300))):
+        _t0 = _t.time()
+        res_ = fn_()
+        ctx.extra["stage_s"]["coq_" + tag_] = round(_t.time() - _t0, 1)
+        if tag_ == "knap_q":
+            f_kq = res_
+        elif tag_ == "knap_z":
+            f_kz = res_
+        elif tag_ == "knap_spec":
+            f_ks = res_
+        elif tag_ == "bin":
+            f_b = res_
+        else:
+            f_bs = res_
 
     # the Coq spec checker rejecting an implementation output is a violation with a concrete input
     for i in f_ks:
@@ -1345,7 +1415,11 @@ def replay(obj):
         print("replay names an unchecked obligation:", obj.get("unchecked") or obj.get("what"))
         return 1
     out = _run_case(c)
-    bad = oracle_knap(c, out) if c["kind"] == "knap" else oracle_bin(c, out)
+    if c.get("x"):
+        from harness.props import C16_r3 as R3
+        bad = (R3.oracle_knap_x if c["kind"] == "knap" else R3.oracle_bin_x)(c, out)
+    else:
+        bad = oracle_knap(c, out) if c["kind"] == "knap" else oracle_bin(c, out)
     print("input:", {k: v for k, v in c.items() if k != "cls"})
     print("implementation:", out)
     print("oracle verdict:", bad or "ok")
